@@ -1,5 +1,6 @@
 import AptMirror.Props.C03
 import AptMirror.Props.C05
+import AptMirror.Lemmas.Mirror
 /-!
 # C08 — repeated runs converge and are idempotent
 
@@ -13,8 +14,16 @@ Proved on the transfer model (the place where "already have it" decisions are ma
 again (`C08_pool_no_transfer`); a metadata file whose size and date equal what the server announces is accepted without its
 body being written (`C08_unchanged_no_body`); a file the tool has just downloaded carries the announced date on every one of
 its paths (`C08_download_sets_date`) and is therefore "unmodified" for an immediately repeated request
-(`C08_second_pass_unmodified`).  The whole-tree statement (tree after any history = fresh mirror) is checked on the
-implementation over generated histories (partial, DESIGN §9).
+(`C08_second_pass_unmodified`).
+
+Proved on the whole-run model (`Model/Mirror.lean`: pool stage with the size short-cut, publish, clean, as one operation
+sequence over the repository's mirror directory): what a run that ends without error leaves behind is a function of what it
+needed, not of what it found — `C08_run_exact`, `C08_run_canonical` (any two prior trees give the same (path, size) set and
+the same live metadata), `C08_run_content` (and the same pool contents, given that pool paths are immutable upstream, S1);
+repeating the run changes nothing and transfers and removes nothing (`C08_run_idempotent`), and a body is only ever requested
+for a path that did not hold a file of the declared size (`C08_transfer_only_if_absent`).  What remains outside the theorems:
+that the needed lists are the same function of the upstream state in both runs (C09/C10 for the parsing and selection, the
+correspondence harness for the glue), and the histories themselves, which are run on the implementation.
 -/
 namespace AptMirror
 
@@ -101,7 +110,112 @@ theorem C08_changed_is_fetched (fs : FS) (p : Path) (fd : FileData) (h : fs.data
   rw [h]
   rcases hch with h | h <;> simp [h]
 
+/-! ## the whole run (L2) -/
+namespace Mirror
+
+/-- **C08 (the result is exactly what was needed).** After a run that ends without error with cleaning enabled: the live
+    metadata is what this run obtained; every needed pool file is there with its declared size; nothing else is left outside
+    skip-clean paths — whatever the tree looked like before (any history of versions, failed and killed runs). -/
+theorem C08_run_exact (t : Tree) (need : Need) (hw : WF t) (hok : NeedOK need) :
+    (run t need).dists = lookupMeta need.mfiles ∧
+    (∀ n ∈ need.pool, ∃ f, (run t need).pool n.path = some f ∧ f.size = n.size) ∧
+    (∀ q, (run t need).pool q ≠ none → keep need q = true) := by
+  obtain ⟨a, b, c, _⟩ := run_effect t need hw hok
+  refine ⟨a, fun n hn => ?_, fun q hq => ?_⟩
+  · obtain ⟨f, hf, hs, _⟩ := b n hn
+    exact ⟨f, hf, hs⟩
+  · cases hk : keep need q with
+    | true => rfl
+    | false => exact absurd (c q hk) hq
+
+/-- **C08 (canonical form).** Two runs for the same needs from two arbitrary prior trees end with the same live metadata
+    and, outside skip-clean paths, the same set of (path, size): the first-ever mirror (`t₂ = Tree.empty`) is one instance. -/
+theorem C08_run_canonical (t₁ t₂ : Tree) (need : Need) (h₁ : WF t₁) (h₂ : WF t₂) (hok : NeedOK need) :
+    (run t₁ need).dists = (run t₂ need).dists ∧
+    ∀ q, need.keepExtra q = false → ((run t₁ need).pool q).map (·.size) = ((run t₂ need).pool q).map (·.size) := by
+  obtain ⟨a1, b1, c1, _⟩ := run_effect t₁ need h₁ hok
+  obtain ⟨a2, b2, c2, _⟩ := run_effect t₂ need h₂ hok
+  refine ⟨by rw [a1, a2], fun q hx => ?_⟩
+  cases hk : keep need q with
+  | false => rw [c1 q hk, c2 q hk]
+  | true =>
+    unfold keep at hk
+    simp only [hx, Bool.or_false, List.any_eq_true, decide_eq_true_eq] at hk
+    obtain ⟨n, hn, rfl⟩ := hk
+    obtain ⟨f1, hf1, hs1, _⟩ := b1 n hn
+    obtain ⟨f2, hf2, hs2, _⟩ := b2 n hn
+    rw [hf1, hf2]; simp [hs1, hs2]
+
+/-- **C08 (contents too, given immutable pool paths).** If whatever the prior tree holds at a needed path consists of bytes of
+    the body the upstream serves for that path (S1; true of the empty tree and kept by every run, `K_exec`), the needed files
+    end up byte-identical to the upstream's: complete size *and* the right body. -/
+theorem C08_run_content (t : Tree) (need : Need) (hw : WF t) (hok : NeedOK need) (hk : K need t) :
+    ∀ n ∈ need.pool, (run t need).pool n.path = some ⟨n.size, n.tag⟩ := by
+  intro n hn
+  obtain ⟨_, b, _, _⟩ := run_effect t need hw hok
+  obtain ⟨f, hf, hs, ht⟩ := b n hn
+  have htag : f.tag = n.tag := by
+    rcases ht with h | h
+    · exact h
+    · exact hk n hn f h
+  rw [hf]
+  cases f
+  simp only at hs htag
+  rw [hs, htag]
+
+/-- **C08 (idempotence).** Repeating the run against the same needs performs no transfer and no removal — its only
+    operation is publishing the same metadata again — and leaves the tree exactly as it was. -/
+theorem C08_run_idempotent (t : Tree) (need : Need) (hw : WF t) (hok : NeedOK need) :
+    runOps (run t need) need = [.swap need.mfiles] ∧ transfers (run t need) need = [] ∧ removals (run t need) need = [] ∧
+    run (run t need) need = run t need := by
+  obtain ⟨a, b, c, _⟩ := run_effect t need hw hok
+  have hp : poolOps (run t need) need.pool = [] := by
+    apply poolOps_nil_of_present
+    intro n hn
+    obtain ⟨f, hf, hs, _⟩ := b n hn
+    simp [present, hf, hs]
+  have hc : cleanOps (run t need) need = [] := by
+    unfold cleanOps
+    rw [List.map_eq_nil_iff, List.filter_eq_nil_iff]
+    intro p _
+    cases hk : keep need p with
+    | true => simp
+    | false => simp [c p hk]
+  have hops : runOps (run t need) need = [.swap need.mfiles] := by
+    unfold runOps
+    rw [hp]
+    simp only [exec_nil, List.nil_append, hc, List.append_nil]
+  refine ⟨hops, ?_, ?_, ?_⟩
+  · simp [transfers, hp]
+  · simp [removals, hp, exec_nil, hc]
+  · show exec (runOps (run t need) need) (run t need) = run t need
+    rw [hops]
+    show step (run t need) (.swap need.mfiles) = run t need
+    generalize run t need = t' at a
+    cases t'
+    simp only [step] at a ⊢
+    rw [a]
+
+/-- **C08 (no needless transfer).** A body is requested only for a path that did not already hold a file of the declared
+    size when its turn came; in particular never for a file the previous run completed. -/
+theorem C08_transfer_only_if_absent (t : Tree) (n : PoolNeed) (h : present t n = true) : fileOps t n = [] := by
+  simp [fileOps, h]
+
+end Mirror
+
 /-! ### non-vacuity -/
+private def needX : Mirror.Need :=
+  { mfiles := [(["dists", "s", "Release"], ⟨10, 1⟩)],
+    pool := [⟨["pool", "a.deb"], 5, 11, [2, 3]⟩, ⟨["pool", "b.deb"], 4, 12, [4]⟩],
+    keepExtra := fun p => p.head? = some "keepme" }
+private def treeX : Mirror.Tree :=
+  { dists := fun _ => none,
+    pool := fun p => if p = ["pool", "a.deb"] then some ⟨2, 11⟩ else if p = ["pool", "old.deb"] then some ⟨9, 13⟩ else none,
+    dom := [["pool", "a.deb"], ["pool", "old.deb"]] }
+example : Mirror.transfers treeX needX = [["pool", "a.deb"], ["pool", "b.deb"]] ∧ Mirror.removals treeX needX = [["pool", "old.deb"]] := by decide
+example : (Mirror.run treeX needX).pool ["pool", "a.deb"] = some ⟨5, 11⟩ ∧ (Mirror.run treeX needX).pool ["pool", "old.deb"] = none := by decide
+example : Mirror.transfers (Mirror.run treeX needX) needX = [] := by decide
+
 private def fs0 : FS := FS.empty.addFile ["m", "Release"] { size := 5, mtime := some 77, tag := 3 }
 example : needUpdate fs0 ["m", "Release"] (some 5) (some 77) = false := by decide
 example : needUpdate fs0 ["m", "Release"] (some 5) (some 78) = true := by decide
